@@ -97,6 +97,10 @@ impl MqttShared {
         self.io.tag()
     }
 
+    pub(super) fn notify_dispatcher(&self) {
+        self.io.notify_dispatcher();
+    }
+
     pub(super) fn credit(&self) -> usize {
         self.cap.get().saturating_sub(self.queues.borrow().inflight.len())
     }
